@@ -110,6 +110,9 @@ func init() {
 			}
 			return e.newErr(s, "fmt.Errorf", cause)
 		}),
+		"github.com/ferranbt/fastssz.ErrBytesLengthFn": simple(func(e *Engine, s *State, a []Value, at ssa.Instruction, _ *ssa.Function) Value {
+			return e.newErr(s, "ssz.ErrBytesLength", nil)
+		}),
 		"github.com/pkg/errors.New": simple(func(e *Engine, s *State, a []Value, at ssa.Instruction, _ *ssa.Function) Value {
 			return e.newErr(s, "errors.New", nil)
 		}),
